@@ -77,12 +77,24 @@ func (h *stdHarness) Step(ev *Event, step int) (Result, *Violation) {
 	}
 	for _, o := range h.oracles {
 		h.w.Stats.OracleEval++
-		if v := filterKnown(o.After(h.w, ev, res)); v != nil {
+		if v := filterKnown(safeAfter(h.spec.ID, o, h.w, ev, res)); v != nil {
 			v.Step = step
 			return res, v
 		}
 	}
 	return res, nil
+}
+
+// safeAfter: oracles only call the public getters / query paths a user relies on; if one of those panics on the state the
+// chain is in, that is reported (as this property's violation) instead of crashing the worker.
+func safeAfter(prop string, o Oracle, w *World, ev *Event, res Result) (v *Violation) {
+	defer func() {
+		if r := recover(); r != nil {
+			v = &Violation{Property: prop, OracleID: strings.ToLower(prop) + ".query_panicked", Signature: panicSig(fmt.Sprint(r)),
+				Detail: fmt.Sprintf("a keeper query used by oracle %s panicked after %s: %v", o.ID(), ev.Tag, r)}
+		}
+	}()
+	return o.After(w, ev, res)
 }
 func (h *stdHarness) Finish() *Violation { return nil }
 
